@@ -62,3 +62,21 @@ package dig
 //@   loop#1 invariant rowlen(r.collection, i) == r.ncols
 //@   loop#1 invariant forall j int :: 0 <= j && j < len(r.singleton) ==> within(r.singleton[j], input)
 //@   loop#1 invariant forall a mathint, k int :: hp(r.singleton, a, k) == old(hp(r.singleton, a, k)) || within(hp(r.singleton, a, k), input)
+
+// C03/C04: dig.Integration refines the Destination.Delete contract assumed by
+// the task: the rows of block n and above go, for the integration's own
+// (source, integration) pair only, on the connection it is given.
+//@ func (Integration).Delete props=C03,C04,C02 conn=pg pair=wctx_SrcName(ctx),ig.name
+//@   ensures [rows] result == nil ==> (forall m uint64 :: V_rows[m] == (m >= n ? 0 : old(V_rows[m])))
+//@   ensures [err] result != nil ==> V_rows == old(V_rows)
+//@   ensures [frame] V_cur == old(V_cur) && V_hash == old(V_hash)
+
+// C12: per-field results are folded with the declared aggregation; no filter accepts.
+//@ func (*filterResults).add props=C12
+//@   ensures [first] !old(fr.set) ==> fr.set && fr.val == b
+//@   ensures [and] old(fr.set) && fr.kind == "and" ==> fr.set && fr.val == (old(fr.val) && b)
+//@   ensures [or] old(fr.set) && fr.kind != "and" ==> fr.set && fr.val == (old(fr.val) || b)
+//@   ensures [kind] fr.kind == old(fr.kind)
+//@ func (*filterResults).accept props=C12
+//@   ensures result == (!fr.set || fr.val)
+//@   ensures fr.set == old(fr.set) && fr.val == old(fr.val) && fr.kind == old(fr.kind)
